@@ -119,7 +119,11 @@ def audio_extent(F, S):
     if len(loops) == 1:
         ct = c05.resolve(fc.term(loops[0]["cond"]), c05.alias_defs(fc))
         detail = fmt_term(ct)
-        good = ct[0] == "op" and ct[1] == "<" and ct[2][0] == "var" and ct[2][1] == "currentPosition" and ct[3][0] == "call" and ct[3][1].endswith("::Length")
+        # the cursor is whichever local the loop body seeks the reader to
+        body = fc.subtree(loops[0]["body"])
+        seeks = [fc.n(x) for x in body if fc.n(x)["k"] == "CXXMemberCallExpr" and fc.n(x).get("fname") == "Seek" and fc.n(x).get("args")]
+        cursors = {fc.term(c["args"][0]) for c in seeks}
+        good = ct[0] == "op" and ct[1] == "<" and ct[2][0] == "var" and ct[2] in cursors and ct[3][0] == "call" and ct[3][1].endswith("::Length")
     if good:
         out.append(ok("R-GUARD", inst, fc.loc(loops[0]["id"]), fc.qn, req, detail))
     else:
